@@ -891,6 +891,61 @@ fn sweep_one(sw: &mut Sweep, case: Case) -> Result<(), (Case, Fail)> {
 impl Property for C14 {
     type Case = Case;
 
+    fn fuzz(&self) -> Option<FuzzSpec> {
+        Some(FuzzSpec { target: "c14", jobs: 8, runs: 1_000_000, max_len: 400, seeds: 300 })
+    }
+
+    /// byte 0: kind (encode / decode / reject by removal / reject by appending / arbitrary);
+    /// byte 1: n = number of schedule bytes (0..=7); n bytes of write / read schedule;
+    /// byte: m = number of destination sizes (0..=3); m bytes; the rest is the data
+    fn case_from_bytes(&self, data: &[u8]) -> Option<Case> {
+        let mut it = data.iter().copied();
+        let kind = it.next()? % 5;
+        let n = (it.next()? % 8) as usize;
+        let sched: Vec<u8> = it.by_ref().take(n).collect();
+        let m = (it.next().unwrap_or(0) % 4) as usize;
+        let dst: Vec<u8> = it.by_ref().take(m).map(|b| b % 80 + 1).collect();
+        let rest: Vec<u8> = it.collect();
+        let read_sched: Vec<u8> = sched.iter().map(|b| b % 9 + 1).collect();
+        Some(match kind {
+            0 => Case::Encode {
+                data: rest,
+                pieces: sched.iter().map(|b| Piece { len: (b >> 1) as u16 % 70, all: b & 1 == 1 }).collect(),
+            },
+            1 => Case::Decode { data: rest, sched: read_sched, dst },
+            2 => Case::Reject { data: rest, edit: Edit::Remove(n as u8 % 3 + 1), sched: read_sched, dst },
+            3 => Case::Reject {
+                data: rest,
+                edit: Edit::Append(sched.iter().take(n % 3 + 1).map(|b| b % 65).collect::<Vec<u8>>()),
+                sched: read_sched,
+                dst,
+            },
+            _ => Case::Arbitrary { input: rest, sched: read_sched, dst },
+        })
+    }
+
+    fn case_to_bytes(&self, case: &Case) -> Option<Vec<u8>> {
+        let pack = |kind: u8, sched: &[u8], dst: &[u8], data: &[u8]| {
+            let sched = &sched[..sched.len().min(7)];
+            let dst = &dst[..dst.len().min(3)];
+            let mut out = vec![kind, sched.len() as u8];
+            out.extend_from_slice(sched);
+            out.push(dst.len() as u8);
+            out.extend(dst.iter().map(|d| d.saturating_sub(1)));
+            out.extend_from_slice(data);
+            out
+        };
+        Some(match case {
+            Case::Encode { data, pieces } => {
+                let sched: Vec<u8> = pieces.iter().map(|p| ((p.len.min(69) as u8) << 1) | p.all as u8).collect();
+                pack(0, &sched, &[], data)
+            }
+            Case::Decode { data, sched, dst } => pack(1, &sched.iter().map(|b| b.saturating_sub(1)).collect::<Vec<_>>(), dst, data),
+            Case::Arbitrary { input, sched, dst } => pack(4, &sched.iter().map(|b| b.saturating_sub(1)).collect::<Vec<_>>(), dst, input),
+            Case::Reject { .. } => return None,
+        })
+    }
+
     fn id(&self) -> &'static str {
         "C14"
     }
